@@ -249,7 +249,7 @@ var embMaps = []embMap{
 	{"%{2: 92, 1: 93}", [][2]string{{"1", "92"}, {"0", "93"}}, false},
 	{"%{[1]: 94}", [][2]string{{"10", "94"}}, false},
 	{`%{[2]: 95, "a": 96}`, [][2]string{{"6", "96"}, {"12", "95"}}, false}, // a map iterates scalar keys first
-	{"%{[1]: 89, 2: 88}", [][2]string{{"1", "88"}, {"10", "89"}}, false}, // shares a non-scalar key with another embedded map
+	{"%{[1]: 89, 2: 88}", [][2]string{{"1", "88"}, {"10", "89"}}, false},   // shares a non-scalar key with another embedded map
 	{"{a: 97}", [][2]string{{"6", "97"}}, true},
 	{"{b: 98, a: 99}", [][2]string{{"6", "99"}, {"b", "98"}}, true}, // object pairs in sorted name order
 }
